@@ -1812,6 +1812,11 @@ func (kmc *KeystoreManagerForPoC) ChangePrivPassphrase(oldPrivPass, newPrivPass 
 		addrManager.privPassphraseSalt = passphraseSalt
 		addrManager.hashedPrivPassphrase = hashedPassphrase
 	}
+	// When the manager is locked, the new clear text master key (shared by
+	// all keystores) must not stay in memory.
+	if !kmc.unlocked {
+		newMasterPrivKey.Zero()
+	}
 	return nil
 }
 
